@@ -1,0 +1,53 @@
+//go:build verif
+
+// Contracts checked by /verif/govc (comment-only file; adds no code).
+
+package trustpolicy
+
+//@ pure func isType(k ValidationType) bool = k == TypeIntegrity || k == TypeAuthenticity || k == TypeAuthenticTimestamp || k == TypeExpiry || k == TypeRevocation
+//@ pure func isAction(a ValidationAction) bool = a == ActionEnforce || a == ActionLog || a == ActionSkip
+//@ pure func enf5(l *VerificationLevel, i ValidationAction, a ValidationAction, t ValidationAction, e ValidationAction, r ValidationAction) bool = l != nil && l.Enforcement != nil && has(l.Enforcement, TypeIntegrity) && l.Enforcement[TypeIntegrity] == i && has(l.Enforcement, TypeAuthenticity) && l.Enforcement[TypeAuthenticity] == a && has(l.Enforcement, TypeAuthenticTimestamp) && l.Enforcement[TypeAuthenticTimestamp] == t && has(l.Enforcement, TypeExpiry) && l.Enforcement[TypeExpiry] == e && has(l.Enforcement, TypeRevocation) && l.Enforcement[TypeRevocation] == r && forallkeys(k, l.Enforcement, isType(k))
+
+//@ global invariant LevelStrict.Name == "strict" && enf5(LevelStrict, ActionEnforce, ActionEnforce, ActionEnforce, ActionEnforce, ActionEnforce)
+//@ global invariant LevelPermissive.Name == "permissive" && enf5(LevelPermissive, ActionEnforce, ActionEnforce, ActionLog, ActionLog, ActionLog)
+//@ global invariant LevelAudit.Name == "audit" && enf5(LevelAudit, ActionEnforce, ActionLog, ActionLog, ActionLog, ActionLog)
+//@ global invariant LevelSkip.Name == "skip" && enf5(LevelSkip, ActionSkip, ActionSkip, ActionSkip, ActionSkip, ActionSkip)
+//@ global invariant len(VerificationLevels) == 4 && VerificationLevels[0] == LevelStrict && VerificationLevels[1] == LevelPermissive && VerificationLevels[2] == LevelAudit && VerificationLevels[3] == LevelSkip
+//@ global invariant len(ValidationTypes) == 5 && ValidationTypes[0] == TypeIntegrity && ValidationTypes[1] == TypeAuthenticity && ValidationTypes[2] == TypeAuthenticTimestamp && ValidationTypes[3] == TypeExpiry && ValidationTypes[4] == TypeRevocation
+//@ global invariant len(ValidationActions) == 3 && ValidationActions[0] == ActionEnforce && ValidationActions[1] == ActionLog && ValidationActions[2] == ActionSkip
+
+//@ pure func presetOf(name string) *VerificationLevel = ite(name == "strict", LevelStrict, ite(name == "permissive", LevelPermissive, ite(name == "audit", LevelAudit, ite(name == "skip", LevelSkip, nil))))
+//@ pure func legalOverride(k ValidationType, a ValidationAction) bool = isType(k) && isAction(a) && k != TypeIntegrity && (a == ActionSkip ==> k == TypeRevocation)
+
+//@ func (*SignatureVerification).GetVerificationLevel
+//@ props C02 C09
+//@ requires signatureVerification != nil
+//@ ensures result1 != nil ==> result == nil
+//@ ensures[C09.level-known]   result1 == nil ==> result != nil && presetOf(signatureVerification.VerificationLevel) != nil
+//@ ensures[C02.preset]        result1 == nil && len(signatureVerification.Override) == 0 ==> result == presetOf(signatureVerification.VerificationLevel)
+//@ ensures[C09.override-legal] result1 == nil && len(signatureVerification.Override) > 0 ==> signatureVerification.VerificationLevel != "skip" && forallkeys(k, signatureVerification.Override, legalOverride(k, signatureVerification.Override[k]))
+//@ ensures[C02.custom]        result1 == nil && len(signatureVerification.Override) > 0 ==> fresh(result) && fresh(result.Enforcement) && result.Name == "custom" && forall(k, ValidationType, has(result.Enforcement, k) == isType(k)) && forall(k, ValidationType, isType(k) ==> result.Enforcement[k] == ite(has(signatureVerification.Override, k), signatureVerification.Override[k], presetOf(signatureVerification.VerificationLevel).Enforcement[k]))
+//@ ensures[C09.integrity]     result1 == nil && signatureVerification.VerificationLevel != "skip" ==> result.Enforcement[TypeIntegrity] == ActionEnforce
+//@ loop 1 invariant baseLevel == nil || baseLevel == presetOf(signatureVerification.VerificationLevel)
+//@ loop 1 invariant forall(i, 0, rangeindex+1, VerificationLevels[i].Name == signatureVerification.VerificationLevel ==> baseLevel == VerificationLevels[i])
+//@ loop 1 exit-assert (baseLevel == nil) == (presetOf(signatureVerification.VerificationLevel) == nil)
+//@ loop 2 invariant fresh(customVerificationLevel) && fresh(customVerificationLevel.Enforcement) && customVerificationLevel.Name == "custom"
+//@ loop 2 invariant forall(k, ValidationType, has(customVerificationLevel.Enforcement, k) == (visited(k) && has(baseLevel.Enforcement, k)))
+//@ loop 2 invariant forall(k, ValidationType, visited(k) ==> customVerificationLevel.Enforcement[k] == baseLevel.Enforcement[k])
+//@ loop 2 modifies mapobj(customVerificationLevel.Enforcement)
+//@ loop 2 exit-assert forall(k, ValidationType, has(customVerificationLevel.Enforcement, k) == has(baseLevel.Enforcement, k) && customVerificationLevel.Enforcement[k] == baseLevel.Enforcement[k])
+//@ loop 3 invariant fresh(customVerificationLevel) && fresh(customVerificationLevel.Enforcement) && customVerificationLevel.Name == "custom"
+//@ loop 3 invariant forall(k, ValidationType, has(customVerificationLevel.Enforcement, k) == isType(k))
+//@ loop 3 invariant forall(k, ValidationType, isType(k) ==> customVerificationLevel.Enforcement[k] == ite(visited(k) && has(signatureVerification.Override, k), signatureVerification.Override[k], baseLevel.Enforcement[k]))
+//@ loop 3 invariant forall(k, ValidationType, visited(k) ==> has(signatureVerification.Override, k) && legalOverride(k, signatureVerification.Override[k]))
+//@ loop 3 modifies mapobj(customVerificationLevel.Enforcement)
+//@ loop 4 invariant validationType == "" && forall(i, 0, rangeindex+1, ValidationTypes[i] != key)
+//@ loop 4 exit-assert !isType(key)
+//@ loop 5 invariant validationAction == "" && forall(i, 0, rangeindex+1, ValidationActions[i] != value)
+//@ loop 5 exit-assert !isAction(value)
+//@ loop 1 exit-assert baseLevel != nil ==> forall(k, ValidationType, has(baseLevel.Enforcement, k) == isType(k)) && (baseLevel != LevelSkip ==> baseLevel.Enforcement[TypeIntegrity] == ActionEnforce) && (baseLevel == LevelSkip) == (signatureVerification.VerificationLevel == "skip")
+//@ loop 2 invariant forall(k, ValidationType, has(baseLevel.Enforcement, k) == isType(k))
+//@ loop 2 invariant baseLevel.Enforcement[TypeIntegrity] == ActionEnforce
+//@ loop 2 invariant len(signatureVerification.Override) > 0
+//@ loop 2 invariant signatureVerification.VerificationLevel != "skip" && baseLevel == presetOf(signatureVerification.VerificationLevel)
+//@ loop 3 invariant baseLevel.Enforcement[TypeIntegrity] == ActionEnforce && len(signatureVerification.Override) > 0 && signatureVerification.VerificationLevel != "skip" && baseLevel == presetOf(signatureVerification.VerificationLevel)
